@@ -16,6 +16,12 @@ Theorem C03_outcome_own : forall s rid r i,
 Proof. exact c03_outcome_own. Qed.
 Print Assumptions C03_outcome_own.
 
+(* Replies are never invented: a stored reply's id is the id of an inbound message the reply listener looked up. *)
+Theorem C03_reply_was_received : forall s rid r i,
+  reach s -> rq s rid = Some r -> r_reply r = Some i -> In i (rlog s).
+Proof. exact c03_reply_was_received. Qed.
+Print Assumptions C03_reply_was_received.
+
 (* Message-ids of one session are pairwise distinct (under the fresh-id oracle = uuid4: a trace that
    re-uses an id is not accepted by [step]). *)
 Theorem C03_unique_ids : forall s, reach s -> NoDup (map r_id (reqs s)).
